@@ -31,6 +31,17 @@ Theorem C05_unary_is_the_check : forall op a,
 Proof. exact emit_unary_unfold. Qed.
 Print Assumptions C05_unary_is_the_check.
 
+(* `l[i]`, read or written: accepted exactly when l is a list and i an integer (literal, int, uint); the result is the element type *)
+Theorem C05_subscript : forall obj ix s, succeeds (check_object_subscript_type obj ix) s = spec_subscript (operand_tdesc obj) (operand_tdesc ix).
+Proof. exact subscript_check_spec. Qed.
+Print Assumptions C05_subscript.
+Theorem C05_subscript_is_the_check : forall E obj ix rhs,
+  visit_object_subscript obj ix = (let! elem := check_object_subscript_type obj ix in emit_result elem (RReadSub obj ix)) /\
+  visit_object_subscript_assignment E obj ix rhs =
+    (let! elem := check_object_subscript_type obj ix in
+     if is_assignable E elem (operand_tdesc rhs) then let! _ := push_statement (TExec (RWriteSub obj ix rhs)) in ret OVoid else fail XIncompatibleTypes).
+Proof. intros. split; reflexivity. Qed.
+
 (* assignment (locals, properties, subscripts, call arguments, declarations): no implicit conversion other than a literal
    class becoming its concrete type, enum aliases and object upcast *)
 Theorem C05_assignable : forall E t a, is_assignable E t a = spec_assignable E t a.
